@@ -24,14 +24,25 @@ def leaf_types(s, path="", out=None):
     return out
 
 
-def make_case(cid, s, flags=(), comp=None):
+def make_case(cid, s, flags=(), comp=None, mode="list"):
     oracle = ('package cs\n\nimport "verifcases/vo"\n\nfunc VerifObserve(emit func(string, string)) {\n'
               '\tvo.ObserveCtor(emit, New%s)\n}\n' % newgen.instantiate(s))
     cdecls, cnames = comp or ([], [])
     # multi-type run: the companion types come first; what they carry must not reach T
     args = ["new"] + list(flags) + ["-type=" + ",".join(cnames + [s["name"]])]
-    return {"id": cid, "spec": s, "files": newgen.case_files("cs", cdecls + [s], cid),
-            "runs": [{"args": args}], "oracle": {".": oracle},
+    if mode == "file":
+        # every struct of the file is generated into one all-in-one file; T's constructor must be the same
+        args = ["new"] + list(flags) + ["-file=t.go"]
+    elif mode == "star":
+        args = ["new"] + list(flags) + ["-type=*"]
+    # -type=* is the go:generate mode: the all-in-one file is named after $GOFILE
+    run = {"args": args}
+    files = newgen.case_files("cs", cdecls + [s], cid)
+    if mode == "star":
+        # -type=* is the go:generate mode: the all-in-one file is named after the file that carries the directive
+        files["t.go"] = files["t.go"].replace("package cs\n", "package cs\n\n//go:generate shoot " + " ".join(args) + "\n", 1)
+    return {"id": cid, "spec": s, "files": files,
+            "runs": [run], "oracle": {".": oracle},
             "sexp": newgen.ctor_sexp(cid, s), "cmd": "shoot " + " ".join(args),
             "types": leaf_types(s)}
 
@@ -72,7 +83,24 @@ def gen_cases(ctx):
             s["tparams"] = ctx.rng.choice([[(["K"], "cmp.Ordered")], [(["K"], "~int | ~string"), (["V"], "any")],
                                            [(["V"], "any"), (["S"], "fmt.Stringer")]])
         comp = newgen.companion(ctx.rng, s, "n%d" % i) if ctx.rng.random() < 0.3 else None
-        cases.append(make_case("n%d" % i, s, comp=comp))
+        mode = ctx.rng.choice(["list"] * 7 + ["file", "file", "star"])
+        cases.append(make_case("n%d" % i, s, comp=comp, mode=mode))
+        cases[-1]["mode"] = mode
+    # the other selection modes generate EVERY struct of the file: use them only where the model puts each embedded
+    # declaration in WF on its own (otherwise the run may rightly fail on account of another type)
+    probes = []
+    for c in cases:
+        if c.get("mode", "list") != "list":
+            for j, d in enumerate(newgen.embed_decls(c["spec"])):
+                if d.get("pkg") != "sub":
+                    probes.append(("%s_d%d" % (c["id"], j), c, d))
+    if probes:
+        pm = core.model_run(ctx, [newgen.ctor_sexp(pid, d) for pid, _, d in probes])
+        bad = set(c["id"] for pid, c, d in probes if (pm.get(pid) or {}).get("region") != "WF")
+        for k, c in enumerate(cases):
+            if c["id"] in bad:
+                cases[k] = make_case(c["id"], c["spec"], comp=None, mode="list")
+                cases[k]["mode"] = "list"
     return cases
 
 
@@ -121,6 +149,7 @@ def run(ctx, obl):
     for c in cases:
         for k, v in newgen.count_features(c["spec"]).items():
             res.hist("features", k)
+        res.hist("selection_mode", c.get("mode", "list"))
 
     def nontrivial(c, m, im):
         return int(m["spec"].get("nparams", "0")) >= 1 and any(mm["k"] == "e" or mm.get("new") or mm.get("def") for mm in c["spec"]["members"])
